@@ -63,4 +63,6 @@ def run(P, R, L):
     from . import round12
     R.clause("CACHE-2", "the LRU cache behind the table cache and the block cache is asked, filled and pruned with the caller's key; partition ids are fresh; a block-cache miss reads and caches the requested handle")
     R.once(round12.cache2_cache_identity, P, R, L)
+    R.clause("BSRCH-2", "BlockIter::seek keeps the cursor (no store to current_index) only on the true edge of `current key == target`")
+    R.once(round12.bsrch2_block_seek_shortcut, P, R, L)
     R.not_decided += ["prefix compression, separators, seek positions, iteration order (computed bytes)"]
